@@ -165,6 +165,9 @@ def _limit_flow(ctx, cfg, f, limit):
         T.install_string_hooks(it)
         rec = {'budgets': [], 'prefix': [], 'truth': []}
         obj = T.clone_obj(cfg.obj)
+        # the renderer-wide setting is a different quantity from the budget a container hands down
+        if LIMIT in obj.attrs and limit is not None:
+            obj.attrs[LIMIT] = Aff.sym('renderer.' + LIMIT)
         Aff.on_truth = lambda a: rec['truth'].append(repr(a)) if LIMIT in a.terms else None
         for name, g in cfg.cls_methods_with_limit:
             if g is f or not _produces_lines(cfg, g):
